@@ -463,6 +463,7 @@ func famC18(r *Run) {
 	famGoNumbers(r)
 	famTypedSliceErrors(r)
 	famOneShotStructs(r)
+	famZeroStructs(r)
 	for n := 0; n <= 4; n++ {
 		arr := make([]interface{}, n)
 		for i := range arr {
